@@ -12,7 +12,7 @@ variable {P : PyChars}
 /-! ### writability is a property of the content -/
 
 def FieldOKC (P : PyChars) (kv : Str × Val) : Prop :=
-  SimpleText kv.1 ∧ strip P kv.1 = kv.1 ∧ ∃ v, kv.2 = .str v ∧ CleanVal P v
+  SimpleText kv.1 ∧ strip P kv.1 = kv.1 ∧ ∃ v, kv.2 = .str v ∧ EncVal P v
 
 def BlockOKC (P : PyChars) : Content → Prop
   | .entry ty k fs =>
@@ -20,10 +20,10 @@ def BlockOKC (P : PyChars) : Content → Prop
     startsWith "comment".toList ty = false ∧ startsWith "preamble".toList ty = false ∧
     startsWith "string".toList ty = false ∧ SimpleText k ∧ strip P k = k ∧
     (∀ kv ∈ fs, FieldOKC P kv) ∧ (fs.map (·.1)).Nodup
-  | .string k v => SimpleText k ∧ strip P k = k ∧ ∃ s, v = .str s ∧ CleanVal P s
+  | .string k v => SimpleText k ∧ strip P k = k ∧ ∃ s, v = .str s ∧ EncBal P s
   | .preamble v => CleanVal P v
   | .expl c => CleanVal P c ∧ strip P c = c
-  | .impl c => c ≠ [] ∧ strip P c = c ∧ '@' ∉ c
+  | .impl c => c ≠ [] ∧ strip P c = c ∧ noStart P c = true
   | .failed _ => False
 
 theorem blockOK_iff (b : Block) :
